@@ -6,6 +6,7 @@ Extracts
     gtIsizeMaxElseBig) and of `FromSteelVal` (tryFromInt | asCastInt | tryIntoIntOrBig), from the macro
     definitions (`from_for_isize!`, `try_from_int_impl!`, `try_from_impl!`), their invocation lists
     and the hand-written impls (`impl From<T> for SteelVal`, `impl FromSteelVal for T`);
+  * how `LifetimeGuard::drop` (engine.rs) frees the nursery (`free_n(self.count)` as found);
   * the argument-index tables of `impl_register_fn!(n => A:0, ..)` / `impl_register_fn_self!(n => B:1, ..)`
     and whether every generated wrapper checks the arity before it calls the host function.
 Anything that does not parse as expected is an error (exit 2): a broken tie, not silence.
@@ -222,7 +223,20 @@ def reg_tables(src):
     return out
 
 
-def lean(into, frm, regs):
+def free_policy(src):
+    """how `LifetimeGuard::drop` (engine.rs) frees the nursery at the end of a lending call"""
+    b = find_block(src, r"impl<'a>\s+Drop\s+for\s+LifetimeGuard<'a>\s*\{", "LifetimeGuard")
+    if b is None:
+        raise Broken("impl Drop for LifetimeGuard not found in engine.rs")
+    flat = re.sub(r"\s+", " ", b)
+    if re.search(r"OpaqueReferenceNursery::free_n\(\s*self\.count\s*\)", flat):
+        return "asFound"
+    if re.search(r"OpaqueReferenceNursery::free_to\(\s*self\.mark\s*\)", flat):
+        return "toMark"
+    raise Broken("cannot classify how LifetimeGuard::drop frees the nursery: " + flat[:200])
+
+
+def lean(into, frm, regs, policy):
     L = ["/- GENERATED by translate/c20_convs.py from crates/steel-core/src/primitives.rs and",
          "   steel_vm/register_fn.rs on every run of checks/c20.py.  Do not edit. -/",
          "import SteelVerif.C20.Model", "namespace SteelVerif.C20", "",
@@ -233,7 +247,8 @@ def lean(into, frm, regs):
          "def genRegIdx : List (Bool × Nat × List Nat) := ["]
     L += ["  (%s, %d, [%s])," % ("true" if s else "false", a, ", ".join(map(str, ix))) for s, a, ix in regs]
     L[-1] = L[-1].rstrip(",")
-    L += ["]", "", "end SteelVerif.C20", ""]
+    L += ["]", "", "/-- how `LifetimeGuard::drop` frees the nursery -/",
+          "def genFreePolicy : Policy := .%s" % policy, "", "end SteelVerif.C20", ""]
     return "\n".join(L)
 
 
@@ -245,10 +260,11 @@ def main():
         reg = strip_comments(open(repo + "/crates/steel-core/src/steel_vm/register_fn.rs").read())
         into, frm = conv_tables(prim)
         regs = reg_tables(reg)
+        policy = free_policy(strip_comments(open(repo + "/crates/steel-core/src/steel_vm/engine.rs").read()))
     except (Broken, OSError, ValueError) as e:
         print("c20_convs: %s" % e, file=sys.stderr)
         sys.exit(2)
-    text = lean(into, frm, regs)
+    text = lean(into, frm, regs, policy)
     try:
         old = open(out).read()
     except OSError:
@@ -257,7 +273,7 @@ def main():
         with open(out, "w") as f:
             f.write(text)
     print(json.dumps({"into": into, "from": frm,
-                      "register_idx": [[s, a, ix] for s, a, ix in regs],
+                      "register_idx": [[s, a, ix] for s, a, ix in regs], "free_policy": policy,
                       "changed": old != text}))
 
 
